@@ -283,4 +283,307 @@ Section Px.
           rewrite <- Nm2 by lia. rewrite Hnone2 by lia. discriminate.
         * split. rewrite Z.add_0_r. reflexivity. apply raise_none.
   Qed.
+
+  (* ---- path searches (mc-cnn half-step paths, find_valid_neighbors) *)
+  Fixpoint search (P : Z -> Z * Z) (i : Z) (fuel : nat) : pres :=
+    match fuel with
+    | O => PUnset
+    | S f => if edge nr nc (fst (P i)) (snd (P i)) then PNan
+             else if okpix (mask (fst (P i)) (snd (P i))) then PVal (disp (fst (P i)) (snd (P i)))
+             else search P (i + 1) f
+    end.
+
+  Lemma mc_path_search : forall h0 h1 r c fuel i,
+    mc_path nr nc disp mask h0 h1 r c i fuel = search (halfstep (h1, h0) r c) i fuel.
+  Proof. induction fuel as [|f IH]; intro i; cbn [mc_path search]. reflexivity. rewrite IH. reflexivity. Qed.
+
+  Lemma fvn_path_search : forall d0 d1 r c fuel s,
+    fvn_path nr nc disp mask d0 d1 (c + d0 * s) (r + d1 * s) fuel = search (straight (d1, d0) r c) (s + 1) fuel.
+  Proof.
+    induction fuel as [|f IH]; intro s; cbn [fvn_path search]. reflexivity.
+    unfold straight at 1 2 3 4 5 6. cbn [fst snd].
+    replace (r + d1 * s + d1) with (r + d1 * (s + 1)) by lia.
+    replace (c + d0 * s + d0) with (c + d0 * (s + 1)) by lia.
+    rewrite IH. reflexivity.
+  Qed.
+
+  Lemma edge_inside : forall p, edge nr nc (fst p) (snd p) = false <-> inside p.
+  Proof. intros [a b]. unfold edge, Spec.Interp.inside. cbn [fst snd]. lia. Qed.
+
+  Lemma search_spec : forall P fuel i,
+    match search P i fuel with
+    | PVal o => exists k, i <= k < i + Z.of_nat fuel /\ (forall t, i <= t <= k -> inside (P t)) /\
+                  valid_at (P k) /\ (forall t, i <= t < k -> ~ valid_at (P t)) /\ o = disp_at disp (P k)
+    | PNan => exists k, i <= k < i + Z.of_nat fuel /\ ~ inside (P k) /\
+                  forall t, i <= t < k -> inside (P t) /\ ~ valid_at (P t)
+    | PUnset => forall t, i <= t < i + Z.of_nat fuel -> inside (P t) /\ ~ valid_at (P t)
+    end.
+  Proof.
+    intros P. induction fuel as [|f IH]; intro i; cbn [search].
+    - intros t Ht. lia.
+    - destruct (edge nr nc (fst (P i)) (snd (P i))) eqn:Ee.
+      + exists i. split. lia. split. intro X. apply edge_inside in X. congruence. intros t Ht. lia.
+      + apply edge_inside in Ee. rewrite okpix_spec.
+        destruct (spec_valid (mask (fst (P i)) (snd (P i)))) eqn:Ev.
+        * exists i. split. lia. split. intros t Ht. replace t with i by lia. exact Ee.
+          split. exact Ev. split. intros t Ht. lia. reflexivity.
+        * assert (Hi : ~ valid_at (P i)) by (unfold Spec.Interp.valid_at; rewrite Ev; discriminate).
+          specialize (IH (i + 1)). destruct (search P (i + 1) f) as [| |o].
+          -- intros t Ht. destruct (Z.eq_dec t i) as [->|]. split; assumption. apply IH. lia.
+          -- destruct IH as (k & Hk & Hout & Hbefore). exists k. split. lia. split. exact Hout.
+             intros t Ht. destruct (Z.eq_dec t i) as [->|]. split; assumption. apply Hbefore. lia.
+          -- destruct IH as (k & Hk & Hin & Hv & Hbefore & Ho). exists k. split. lia. split.
+             intros t Ht. destruct (Z.eq_dec t i) as [->|]. exact Ee. apply Hin. lia.
+             split. exact Hv. split.
+             intros t Ht. destruct (Z.eq_dec t i) as [->|]. exact Hi. apply Hbefore. lia. exact Ho.
+  Qed.
+
+  (* a path searched from step 1 for [fuel] steps, when it is outside the map at every later step *)
+  Lemma search_contributes : forall P fuel (o : option Q),
+    (forall k, Z.of_nat fuel < k -> ~ inside (P k)) ->
+    match search P 1 fuel with PVal v => o = v | PNan => o = None | PUnset => o = None end ->
+    contributes nr nc disp mask P o.
+  Proof.
+    intros P fuel o Hexit Ho. pose proof (search_spec P fuel 1) as H.
+    destruct (search P 1 fuel) as [| |v].
+    - right. split; [|exact Ho]. intros k Hk Hin.
+      destruct (Z_lt_le_dec (Z.of_nat fuel) k) as [Hl|Hl].
+      + exfalso. apply (Hexit k Hl). apply Hin. lia.
+      + apply H. lia.
+    - right. split; [|exact Ho]. destruct H as (k0 & Hk0 & Hout & Hbefore). intros k Hk Hin.
+      destruct (Z_lt_le_dec k k0) as [Hl|Hl].
+      + apply Hbefore. lia.
+      + exfalso. apply Hout. apply Hin. lia.
+    - left. destruct H as (k & Hk & Hin & Hv & Hbefore & Hd). exists k. split.
+      + split. lia. split. exact Hin. split. exact Hv. exact Hbefore.
+      + rewrite Ho. exact Hd.
+  Qed.
+
+  Lemma search_set : forall P fuel, (0 < fuel)%nat ->
+    (forall k, Z.of_nat fuel <= k -> ~ inside (P k)) -> search P 1 fuel <> PUnset.
+  Proof.
+    intros P fuel Hf Hexit X. pose proof (search_spec P fuel 1) as H. rewrite X in H.
+    apply (Hexit (Z.of_nat fuel)). lia. apply H. lia.
+  Qed.
+
+  (* ---- the neighbours seen by the mc-cnn mismatch kernel and by find_valid_neighbors *)
+  Lemma halfstep_exit : forall h0 h1 r c k, 0 <= r < nr -> 0 <= c < nc ->
+    Z.abs h0 = 2 \/ Z.abs h1 = 2 -> Z.max nc nr <= k -> ~ inside (halfstep (h1, h0) r c k).
+  Proof.
+    intros h0 h1 r c k Hr Hc Hh Hk. unfold halfstep, Spec.Interp.inside. cbn [fst snd].
+    assert (Q2 : forall x, Z.quot (2 * x) 2 = x) by (intro x; rewrite Z.mul_comm; apply Z.quot_mul; lia).
+    assert (Qm2 : forall x, Z.quot (-2 * x) 2 = - x)
+      by (intro x; replace (-2 * x) with ((- x) * 2) by lia; apply Z.quot_mul; lia).
+    destruct Hh as [Hh|Hh].
+    - assert (E : h0 = 2 \/ h0 = -2) by lia. destruct E as [-> | ->]; rewrite ?Q2, ?Qm2; lia.
+    - assert (E : h1 = 2 \/ h1 = -2) by lia. destruct E as [-> | ->]; rewrite ?Q2, ?Qm2; lia.
+  Qed.
+
+  Lemma mc_neighbor_contributes : forall h0 h1 r c, 0 <= r < nr -> 0 <= c < nc ->
+    Z.abs h0 = 2 \/ Z.abs h1 = 2 ->
+    contributes nr nc disp mask (halfstep (h1, h0) r c)
+      (cell true (mc_path nr nc disp mask h0 h1 r c 1 (Z.to_nat (max_path_length nr nc - 1)))).
+  Proof.
+    intros h0 h1 r c Hr Hc Hh. rewrite mc_path_search.
+    apply (search_contributes _ (Z.to_nat (max_path_length nr nc - 1))).
+    - intros k Hk. apply halfstep_exit; try assumption. unfold max_path_length in Hk. lia.
+    - destruct (search _ 1 _); reflexivity.
+  Qed.
+
+  Lemma straight_exit : forall d0 d1 r c k, 0 <= r < nr -> 0 <= c < nc ->
+    Z.abs d0 = 1 \/ Z.abs d1 = 1 -> Z.max nc nr <= k -> ~ inside (straight (d1, d0) r c k).
+  Proof.
+    intros d0 d1 r c k Hr Hc Hd Hk. unfold straight, Spec.Interp.inside. cbn [fst snd].
+    destruct Hd as [Hd|Hd].
+    - assert (E : d0 = 1 \/ d0 = -1) by lia. destruct E as [-> | ->]; lia.
+    - assert (E : d1 = 1 \/ d1 = -1) by lia. destruct E as [-> | ->]; lia.
+  Qed.
+
+  Lemma fvn_contributes : forall d0 d1 r c, 0 <= r < nr -> 0 <= c < nc ->
+    Z.abs d0 = 1 \/ Z.abs d1 = 1 ->
+    contributes nr nc disp mask (straight (d1, d0) r c)
+      (cell0 (fvn_path nr nc disp mask d0 d1 c r (Z.to_nat (max_path_length nr nc)))).
+  Proof.
+    intros d0 d1 r c Hr Hc Hd.
+    pose proof (fvn_path_search d0 d1 r c (Z.to_nat (max_path_length nr nc)) 0) as E.
+    rewrite !Z.mul_0_r, !Z.add_0_r in E. cbn [Z.add] in E. rewrite E.
+    assert (HM : 0 < max_path_length nr nc) by (unfold max_path_length; lia).
+    apply (search_contributes _ (Z.to_nat (max_path_length nr nc))).
+    - intros k Hk. apply straight_exit; try assumption. unfold max_path_length in *. lia.
+    - pose proof (search_set (straight (d1, d0) r c) (Z.to_nat (max_path_length nr nc))) as NS.
+      destruct (search _ 1 _); try reflexivity. exfalso. apply NS; try reflexivity. lia.
+      intros k Hk. apply straight_exit; try assumption. unfold max_path_length in *. lia.
+  Qed.
 End Px.
+
+(* ------------------------------------------------------------------ insertion sort *)
+Section SortP.
+  Context {A : Type}.
+  Variable lt : A -> A -> bool.
+  Variable le : A -> A -> Prop.
+  Hypothesis le_trans : forall a b c, le a b -> le b c -> le a c.
+  Hypothesis lt_le : forall a b, lt a b = true -> le a b.
+  Hypothesis nlt_le : forall a b, lt a b = false -> le b a.
+
+  Lemma insert_perm : forall x l, Permutation (x :: l) (insert lt x l).
+  Proof.
+    intros x l. induction l as [|h t IH]; cbn [insert]. reflexivity.
+    destruct (lt x h). reflexivity.
+    rewrite perm_swap. apply perm_skip. exact IH.
+  Qed.
+
+  Lemma insert_sorted : forall x l, StronglySorted le l -> StronglySorted le (insert lt x l).
+  Proof.
+    intros x l H. induction H as [|h t Hs IH Hf]; cbn [insert].
+    - constructor. constructor. constructor.
+    - destruct (lt x h) eqn:E.
+      + constructor. constructor; assumption. constructor. apply lt_le. exact E.
+        eapply Forall_impl; [|exact Hf]. intros a Ha. eapply le_trans. apply lt_le. exact E. exact Ha.
+      + constructor. exact IH.
+        eapply Permutation_Forall. apply insert_perm. constructor. apply nlt_le. exact E. exact Hf.
+  Qed.
+
+  Lemma fold_insert_perm : forall l acc,
+    Permutation (l ++ acc) (fold_left (fun acc x => insert lt x acc) l acc).
+  Proof.
+    induction l as [|x l IH]; intro acc; cbn [fold_left app]. reflexivity.
+    rewrite <- IH. rewrite <- insert_perm. apply Permutation_middle.
+  Qed.
+  Lemma fold_insert_sorted : forall l acc, StronglySorted le acc ->
+    StronglySorted le (fold_left (fun acc x => insert lt x acc) l acc).
+  Proof.
+    induction l as [|x l IH]; intros acc H; cbn [fold_left]. exact H. apply IH. apply insert_sorted. exact H.
+  Qed.
+
+  Lemma isort_perm : forall l, Permutation l (isort lt l).
+  Proof. intro l. unfold isort. rewrite <- fold_insert_perm. rewrite app_nil_r. reflexivity. Qed.
+  Lemma isort_sorted : forall l, StronglySorted le (isort lt l).
+  Proof. intro l. unfold isort. apply fold_insert_sorted. constructor. Qed.
+End SortP.
+
+(* ------------------------------------------------------------------ nanmedian *)
+Lemma Qlt_bool_le : forall a b, Qlt_bool a b = true -> (a <= b)%Q.
+Proof.
+  intros a b H. unfold Qlt_bool in H. apply negb_true_iff in H.
+  apply Qlt_le_weak. apply Qnot_le_lt. intro X. apply Qle_bool_iff in X. congruence.
+Qed.
+Lemma Qnlt_bool_le : forall a b, Qlt_bool a b = false -> (b <= a)%Q.
+Proof. intros a b H. unfold Qlt_bool in H. apply negb_false_iff in H. apply Qle_bool_iff. exact H. Qed.
+
+Lemma somes_finite : forall l, somes l = finite l.
+Proof. reflexivity. Qed.
+
+Lemma all_nan_finite : forall l, all_nan l = true <-> finite l = [].
+Proof.
+  induction l as [|[q|] l IH]; cbn [all_nan forallb finite flat_map app].
+  - tauto.
+  - split; discriminate.
+  - exact IH.
+Qed.
+
+Lemma nanmedian_is_median : forall l, finite l <> [] ->
+  exists m, nanmedian l = Some m /\ is_median (finite l) m.
+Proof.
+  intros l Hne. unfold nanmedian. rewrite somes_finite.
+  set (s := isort Qlt_bool (finite l)).
+  assert (P : Permutation (finite l) s) by apply isort_perm.
+  assert (S : StronglySorted Qle s)
+    by (apply (isort_sorted Qlt_bool Qle Qle_trans Qlt_bool_le Qnlt_bool_le)).
+  assert (L : (0 < length s)%nat).
+  { rewrite <- (Permutation_length P). destruct (finite l). congruence. cbn. lia. }
+  destruct (length s) as [|n] eqn:En. lia. rewrite <- En.
+  destruct (Nat.even (length s)) eqn:Ev.
+  - eexists. split. reflexivity. exists s. split. exact P. split. exact S. split. lia.
+    rewrite Ev. apply Qred_correct.
+  - eexists. split. reflexivity. exists s. split. exact P. split. exact S. split. lia.
+    rewrite Ev. reflexivity.
+Qed.
+
+(* the median lies between any bounds of the list *)
+Lemma median_bounds : forall l m lo hi, is_median l m ->
+  (forall x, In x l -> lo <= x <= hi)%Q -> (lo <= m <= hi)%Q.
+Proof.
+  intros l m lo hi (s & P & _ & L & E) Hb.
+  assert (Hs : forall k, (k < length s)%nat -> (lo <= nth k s 0 <= hi)%Q).
+  { intros k Hk. apply Hb. eapply Permutation_in. symmetry. exact P. apply nth_In. exact Hk. }
+  pose proof (Nat.lt_div2 (length s) L) as H2.
+  destruct (Nat.even (length s)) eqn:Ev.
+  - assert (H1 : (Nat.pred (Nat.div2 (length s)) < length s)%nat) by lia.
+    destruct (Hs _ H1) as [A1 A2]. destruct (Hs _ H2) as [B1 B2]. rewrite E. split; lra.
+  - rewrite E. apply Hs. exact H2.
+Qed.
+
+(* ------------------------------------------------------------------ second lowest |d| *)
+Definition le_opt (a b : option Q) : Prop :=
+  match a, b with
+  | Some x, Some y => (Qabs x <= Qabs y)%Q
+  | _, None => True
+  | None, Some _ => False
+  end.
+Definition le_abs (a b : Q) : Prop := (Qabs a <= Qabs b)%Q.
+
+Lemma le_opt_trans : forall a b c, le_opt a b -> le_opt b c -> le_opt a c.
+Proof.
+  intros [x|] [y|] [z|]; cbn; try tauto. apply Qle_trans.
+Qed.
+Lemma lt_abs_le_opt : forall a b, lt_abs_nanlast a b = true -> le_opt a b.
+Proof. intros [x|] [y|]; cbn; try discriminate; try tauto. apply Qlt_bool_le. Qed.
+Lemma nlt_abs_le_opt : forall a b, lt_abs_nanlast a b = false -> le_opt b a.
+Proof. intros [x|] [y|]; cbn; try discriminate; try tauto. apply Qnlt_bool_le. Qed.
+
+Lemma le_opt_none_finite : forall t, Forall (le_opt None) t -> finite t = [].
+Proof.
+  induction t as [|[y|] t IH]; intro H; inversion H; subst; cbn [finite flat_map app].
+  reflexivity. contradiction. apply IH. assumption.
+Qed.
+Lemma le_opt_some_finite : forall x t, Forall (le_opt (Some x)) t -> Forall (le_abs x) (finite t).
+Proof.
+  induction t as [|[y|] t IH]; intro H; inversion H; subst; cbn [finite flat_map app].
+  constructor. constructor. assumption. apply IH. assumption. apply IH. assumption.
+Qed.
+Lemma sorted_opt_finite : forall s, StronglySorted le_opt s -> StronglySorted le_abs (finite s).
+Proof.
+  intros s H. induction H as [|[x|] t Hs IH Hf]; cbn [finite flat_map app].
+  constructor. constructor. exact IH. apply le_opt_some_finite. exact Hf. exact IH.
+Qed.
+
+Lemma second_some : forall s x, StronglySorted le_opt s -> nth 1 s None = Some x ->
+  nth_error (finite s) 1 = Some x.
+Proof.
+  intros s x H E. destruct s as [|a [|b t]]; cbn in E; try discriminate. subst b.
+  inversion H as [|? ? _ Hf]; subst. inversion Hf as [|? ? Ha _]; subst.
+  destruct a as [y|]; [|contradiction]. reflexivity.
+Qed.
+Lemma second_none : forall s, StronglySorted le_opt s -> nth 1 s None = None ->
+  (length (finite s) < 2)%nat.
+Proof.
+  intros s H E. destruct s as [|a [|b t]].
+  - cbn. lia.
+  - destruct a; cbn; lia.
+  - cbn in E. subst b. inversion H as [|? ? Hs _]; subst. inversion Hs as [|? ? _ Hn]; subst.
+    apply le_opt_none_finite in Hn.
+    destruct a; cbn [finite flat_map app]; change (flat_map _ t) with (finite t); rewrite Hn; cbn; lia.
+Qed.
+
+Lemma second_lowest_spec : forall nb,
+  match second_lowest_abs nb with
+  | Some x => (2 <= length (finite nb))%nat /\ is_second_lowest_abs (finite nb) x
+  | None => (length (finite nb) < 2)%nat
+  end.
+Proof.
+  intro nb. unfold second_lowest_abs. set (s := isort lt_abs_nanlast nb).
+  assert (P : Permutation nb s) by apply isort_perm.
+  assert (S : StronglySorted le_opt s)
+    by (apply (isort_sorted lt_abs_nanlast le_opt le_opt_trans lt_abs_le_opt nlt_abs_le_opt)).
+  assert (PF : Permutation (finite nb) (finite s)) by (unfold finite; apply Permutation_flat_map; exact P).
+  destruct (nth 1 s None) as [x|] eqn:E.
+  - pose proof (second_some s x S E) as N. split.
+    + rewrite (Permutation_length PF). destruct (finite s) as [|a [|b t]]; cbn in N; try discriminate. cbn. lia.
+    + exists (finite s). split. exact PF. split. apply sorted_opt_finite. exact S. exact N.
+  - rewrite (Permutation_length PF). apply second_none; assumption.
+Qed.
+
+Lemma second_lowest_in : forall l x, is_second_lowest_abs l x -> In x l.
+Proof.
+  intros l x (s & P & _ & N). eapply Permutation_in. symmetry. exact P. eapply nth_error_In. exact N.
+Qed.
